@@ -168,7 +168,12 @@ def main(argv):
     for ob in obs:
         if ob.fn is None:
             continue
+        import inspect as _inspect
+        params = set(_inspect.signature(ob.fn).parameters)
         for w in ob.witnesses:
+            if not set(w) <= params:
+                harness_errors.append(f'{ob.id}: witness point {w} does not match the obligation\'s parameters {sorted(params)}')
+                continue
             verdict, msg = run_native(ob.fn, w)
             if verdict is False:
                 # a declared in-bound point that fails natively is a counterexample like any other
